@@ -63,7 +63,8 @@ def gen_case(rnd, spec):
             elif k < 0.93:
                 acts.append(["supply1", rnd.randint(0, 9), rnd.choice([0, 1, 2, 4, 0.5])])
             else:
-                acts.append(["util", rnd.randint(0, 9)])
+                # idle children (utilisation and allocation 0) are children like any other
+                acts.append(["util", rnd.randint(0, 9)] + rnd.choice([[], [0.0, 0.0], [0.0, 0.5], [1.0, 1.0]]))
         cycles.append(acts)
     # initial children may already be draining (demand 0, still holding supply)
     return {"initial": [[rnd.choice([1, 2, 3, 0.5, 0, 0]), rnd.choice([0, 1, 2, 3])] for _ in range(rnd.choice([0, 0, 1, 2, 3, 4]))],
@@ -132,7 +133,9 @@ def execute(case, result):
                 elif a[0] == "supply1" and kids:
                     kids[a[1] % len(kids)].poke(supply=a[2])
                 elif a[0] == "util" and kids:
-                    kids[a[1] % len(kids)].poke(utilisation=0.25, allocation=0.5)
+                    kids[a[1] % len(kids)].poke(utilisation=a[2] if len(a) > 2 else 0.25, allocation=a[3] if len(a) > 2 else 0.5)
+                    if len(a) > 2 and a[2] == 0:
+                        result.count("children_reporting_no_utilisation")
         return run
 
     script = []
